@@ -23,27 +23,31 @@ LEAN_TARGETS = ["Asynkit.Props.C20", "Asynkit.Lemmas.GenEqC20"]
 PROPS_FILES = ["Asynkit/Props/C20.lean", "Asynkit/Lemmas/GenEqC20.lean"]
 DRIVERS = ["CoroState"]
 TRUSTED = [
-    "Lean 4.33 kernel; axioms ⊆ {propext, Classical.choice, Quot.sound} (audited per theorem each run)",
-    "hand-written model Asynkit/Model/CoroState.lean: the table Kind x Phase -> attributes CPython 3.12 exposes, the "
-    "three helpers of src/asynkit/coroutine.py as functions of those attributes, and the phase transitions of "
-    "send/throw/close and of the asend/athrow/aclose awaitables; tied to the interpreter and to the code by the "
-    "differential correspondence of this run (lean/Drivers/CoroState.lean)",
-    "translator/corostate2lean.py: coro_get_frame, _asyncgen_frame_state, coro_is_new, coro_is_suspended, "
-    "coro_is_finished (and _coro_getattr, _RETURN_GENERATOR) are re-translated statement by statement from "
-    "src/asynkit/coroutine.py into lean/Asynkit/Gen/CoroState.lean on every run; Lemmas/GenEqC20.lean proves them equal "
-    "to the model's helper definitions on every object view the attribute table can produce (all kinds, phases, "
-    "ag_running values, code-object prologue lengths, frame positions)",
-    "inspect.iscoroutine/isgenerator/isasyncgen/getcoroutinestate/getgeneratorstate/getasyncgenstate: verbatim text of "
-    "CPython 3.12 Lib/inspect.py inside the translator (compared with the running interpreter's source when that is "
-    "3.12), translated by the same translator; Model/PyView.lean: which attributes an object of each type has, "
-    "AttributeError on None / foreign attributes, opcode.opmap['RETURN_GENERATOR'] = 75, co_code[i] total",
-    "modelled, not verified: which attribute values CPython exposes in each phase (cr_/gi_/ag_ frame, running, await, "
-    "suspended, f_lasti, f_back, inspect.get*state), and genobject.c's rules for async-generator awaitables "
-    "(ag_running is set by send() on a new awaitable, cleared when a value is yielded or the generator exits)",
+    'Lean 4.33 kernel; axioms ⊆ {propext, Classical.choice, Quot.sound} (audited per theorem each run)',
+    'hand-written and tied only by the differential correspondence of this run (lean/Drivers/CoroState.lean): the'
+    ' table Kind x Phase -> attributes CPython 3.12 exposes (`expose`) and the phase transitions of '
+    'send/throw/close and of the asend/athrow/aclose awaitables (`deliver`) of Asynkit/Model/CoroState.lean; the '
+    'helper definitions in that file are no longer trusted (next entry)',
+    'translated, not trusted: coro_get_frame, _asyncgen_frame_state, coro_is_new, coro_is_suspended, '
+    'coro_is_finished (with _coro_getattr and _RETURN_GENERATOR) are re-translated statement by statement from '
+    'coroutine.py on every run (translator/corostate2lean.py -> Gen/CoroState.lean) and proved equal to the '
+    "model's helpers on every object view the table can produce - all kinds, phases, ag_running values, prologue "
+    'lengths, frame positions (Lemmas/GenEqC20.lean, 11 theorems)',
+    'inspect.iscoroutine/isgenerator/isasyncgen/getcoroutinestate/getgeneratorstate/getasyncgenstate: verbatim '
+    "text of CPython 3.12 Lib/inspect.py inside the translator (compared with the running interpreter's source "
+    'when that is 3.12), translated by the same translator; Model/PyView.lean: which attributes an object of each'
+    " type has, AttributeError on None / foreign attributes, opcode.opmap['RETURN_GENERATOR'] = 75, co_code[i] "
+    'total',
+    'modelled, not verified: which attribute values CPython exposes in each phase (cr_/gi_/ag_ frame, running, '
+    "await, suspended, f_lasti, f_back, inspect.get*state), and genobject.c's rules for async-generator "
+    'awaitables (ag_running is set by send() on a new awaitable, cleared when a value is yielded or the generator'
+    ' exits)',
 ]
 ASSUMPTIONS = [
-    "CPython 3.12 attribute semantics (the harness reports any deviation as a correspondence disagreement)",
-    "sequential drivers; no garbage-collection-driven finalisation during a history (objects are kept alive)",
+    'CPython 3.12 attribute semantics (the harness reports any deviation as a correspondence disagreement)',
+    'sequential drivers; no garbage-collection-driven finalisation during a history (objects are kept alive)',
+    'the code-object stream (functions recompiled from source, >256 locals) is checked by the oracle only; the '
+    'model covers prologue lengths through the universally quantified `pro` of GenEqC20',
 ]
 RULE = ("case = kind {coroutine, generator-based coroutine, async generator} x body script (items: await, yield, "
         "observe-self, call a callee that observes the caller, await a callee that observes and suspends; per "
